@@ -53,7 +53,7 @@ impl SnapTunAuthorization for ClockedAuthz {
     type SessionData = Identity;
     fn is_authorized(&self, now: Instant, identity: &Identity) -> Option<Arc<Identity>> {
         let real = Instant::now();
-        if now > real || real.duration_since(now) > Duration::from_secs(2) {
+        if now > real || real.duration_since(now) > Duration::from_secs(120) {
             self.odd_time.fetch_add(1, Ordering::SeqCst);
         }
         self.asked.lock().unwrap().push(*identity);
@@ -479,12 +479,13 @@ fn record(evp: &str, sump: &str) {
 
 #[derive(Default)]
 struct RecDispatcher {
-    got: Mutex<Vec<Vec<u8>>>,
+    /// (when, bytes) of every packet handed to the dispatcher
+    got: Mutex<Vec<(Instant, Vec<u8>)>>,
 }
 impl snap_dataplane::dispatcher::Dispatcher for RecDispatcher {
     fn try_dispatch(&self, packet: &sciparse::packet::view::ScionPacketView) {
         use sciparse::core::view::View;
-        self.got.lock().unwrap().push(packet.as_slice().to_vec());
+        self.got.lock().unwrap().push((Instant::now(), packet.as_slice().to_vec()));
     }
 }
 
@@ -572,16 +573,22 @@ async fn register_via_control_plane(router: &axum::Router, sk: &ed25519_dalek::S
 }
 
 fn gateway(outp: &str) {
+    use snap_dataplane::dispatcher::Dispatcher as _;
     use snap_dataplane::tunnel_gateway::{
         NoopTunnelGatewayObserver, dispatcher::TunnelGatewayDispatcher, gateway::TunnelGateway, metrics::TunnelGatewayDispatcherMetrics,
     };
-    use snap_dataplane::dispatcher::Dispatcher as _;
-    // the tokens expire LIFE s after issue; the registration lifetime granted by the control plane is exp - now,
-    // i.e. in (LIFE-1, LIFE]; observations keep >= 5 s from both ends of that interval
+    // The tokens expire LIFE s after issue; the registration lifetime granted by the control plane is exp - now,
+    // i.e. in (LIFE-1, LIFE].  Robustness against slow machines: every datagram carries a unique tag; what was
+    // dispatched / answered / delivered is attributed by CONTENT and judged by the TIMESTAMP of the observation
+    // (not by the step during which it happened to be noticed).  Only observations that are unambiguous
+    // whatever the scheduling are reported as `bad` (the check turns those into violations):
+    //   * a datagram SENT >= 5 s after the expiry and dispatched BEFORE the re-registration call started,
+    //   * a datagram sent after the supersession call returned and dispatched at any time,
+    //   * the same for outbound packets that reach the client and for SCMP replies quoting such datagrams.
+    // Everything else (late or missing positive observations) is reported as data for drift.
     const LIFE: u64 = 12;
     let rt = tokio::runtime::Builder::new_multi_thread().worker_threads(2).enable_all().build().expect("runtime");
     let result = rt.block_on(async move {
-        let mut log: Vec<Value> = vec![];
         let reg = Arc::new(IdentityRegistry::new());
         let sock = tokio::net::UdpSocket::bind("127.0.0.1:0").await.expect("bind");
         let gw_addr = sock.local_addr().unwrap();
@@ -607,76 +614,80 @@ fn gateway(outp: &str) {
         let (_tunn2, id2) = mk_client(2);
         let ip4 = [127u8, 0, 0, 1];
 
-        // receive one WireGuard packet from the gateway (None on timeout)
-        async fn recv(sock: &tokio::net::UdpSocket, ms: u64) -> Option<Vec<u8>> {
-            let mut buf = vec![0u8; 10000];
-            match tokio::time::timeout(Duration::from_millis(ms), sock.recv_from(&mut buf)).await {
-                Ok(Ok((n, _))) => Some(buf[..n].to_vec()),
-                _ => None,
-            }
-        }
-        // send a datagram through the tunnel and collect (dispatched count delta, decrypted replies)
-        macro_rules! through {
-            ($name:expr, $dg:expr, $wait:expr) => {{
-                let before = disp.got.lock().unwrap().len();
-                let out = tunn.handle_outgoing_packet(Packet::copy_from(&$dg[..]));
-                let mut sent = false;
-                if let Some(WgKind::Data(d)) = out {
-                    let bytes: Packet = d.into_bytes();
-                    let _ = csock.send_to(&bytes[..], gw_addr).await;
-                    sent = true;
-                }
-                let mut replies: Vec<Value> = vec![];
-                while let Some(b) = recv(&csock, $wait).await {
-                    match Packet::copy_from(&b[..]).try_into_wg() {
-                        Ok(k) => match tunn.handle_incoming_packet(k) {
-                            TunnResult::WriteToTunnel(p) => {
-                                let p = &p[..];
-                                let hl = if p.len() > 5 { p[5] as usize * 4 } else { 0 };
-                                let scmp = p.len() >= hl + 8 && p.len() > 4 && p[4] == 202;
-                                replies.push(json!({"len": p.len(), "next": if p.len() > 4 { p[4] } else { 0 },
-                                    "scmp_type": if scmp { json!(p[hl]) } else { Value::Null }, "scmp_code": if scmp { json!(p[hl + 1]) } else { Value::Null },
-                                    "head": p.iter().take(24).map(|x| format!("{x:02x}")).collect::<String>()}));
-                            }
-                            other => replies.push(json!({"wg": tr_name(&other)})),
+        // everything the client decrypted: (when, payload); protocol messages are counted separately
+        let mut received: Vec<(Instant, Vec<u8>)> = vec![];
+        let mut protocol_msgs = 0usize;
+        // drain the client socket for `ms` milliseconds
+        macro_rules! drain {
+            ($ms:expr) => {{
+                let until = Instant::now() + Duration::from_millis($ms);
+                loop {
+                    let left = until.saturating_duration_since(Instant::now());
+                    if left.is_zero() {
+                        break;
+                    }
+                    let mut buf = vec![0u8; 10000];
+                    match tokio::time::timeout(left, csock.recv_from(&mut buf)).await {
+                        Ok(Ok((n, _))) => match Packet::copy_from(&buf[..n]).try_into_wg() {
+                            Ok(k) => match tunn.handle_incoming_packet(k) {
+                                TunnResult::WriteToTunnel(p) if !p.is_empty() => received.push((Instant::now(), p[..].to_vec())),
+                                TunnResult::WriteToNetwork(k2) => {
+                                    // timer-driven WireGuard traffic (e.g. a server-initiated re-handshake): answer it
+                                    protocol_msgs += 1;
+                                    let b = wg_bytes(k2);
+                                    let _ = csock.send_to(&b[..], gw_addr).await;
+                                }
+                                _ => protocol_msgs += 1,
+                            },
+                            Err(_) => protocol_msgs += 1,
                         },
-                        Err(_) => replies.push(json!({"raw": b.len()})),
+                        _ => break,
                     }
                 }
-                let after = disp.got.lock().unwrap().len();
-                let intact = after > before && disp.got.lock().unwrap()[before] == $dg;
-                let o = json!({"step": $name, "sent": sent, "dispatched": after - before, "intact": intact, "replies": replies});
-                log.push(o.clone());
-                o
             }};
         }
-        // an outbound SCION packet for the client enters the gateway's outbound queue; did anything reach the client?
-        macro_rules! outbound {
-            ($name:expr) => {{
-                let pkt = scion_udp([10, 0, 0, 9], ip4, 555, caddr.port(), 0, b"to the client");
-                let queued = match {
-                    use sciparse::core::view::View;
-                    sciparse::packet::view::ScionPacketView::try_from_slice(&pkt)
-                } {
-                    Ok((v, _)) => {
-                        tgd.try_dispatch(v);
-                        true
-                    }
-                    Err(_) => false,
-                };
-                let mut delivered = 0;
-                let mut intact = false;
-                while let Some(b) = recv(&csock, 700).await {
-                    if let Ok(k) = Packet::copy_from(&b[..]).try_into_wg() {
-                        if let TunnResult::WriteToTunnel(p) = tunn.handle_incoming_packet(k) {
-                            delivered += 1;
-                            intact = p[..] == pkt[..];
-                        }
-                    }
+        struct Sent {
+            step: String,
+            tag: String,
+            dg: Vec<u8>,
+            at: Instant,
+            sent: bool,
+            outbound: bool,
+        }
+        let mut sent: Vec<Sent> = vec![];
+        // tunnelled datagram from the client
+        macro_rules! through {
+            ($step:expr, $src:expr, $pt:expr, $ver:expr) => {{
+                let tag = format!("<{}>", $step);
+                let mut dg = scion_udp($src, [10, 0, 0, 9], caddr.port(), 555, $pt, tag.as_bytes());
+                dg[0] |= $ver << 4;
+                let out = tunn.handle_outgoing_packet(Packet::copy_from(&dg[..]));
+                let mut ok = false;
+                if let Some(WgKind::Data(d)) = out {
+                    let bytes: Packet = d.into_bytes();
+                    ok = csock.send_to(&bytes[..], gw_addr).await.is_ok();
                 }
-                let o = json!({"step": $name, "queued": queued, "delivered": delivered, "intact": intact});
-                log.push(o.clone());
-                o
+                sent.push(Sent { step: $step.to_string(), tag, dg, at: Instant::now(), sent: ok, outbound: false });
+                drain!(400);
+            }};
+        }
+        // SCION packet for the client entering the gateway's outbound queue
+        macro_rules! outbound {
+            ($step:expr) => {{
+                let tag = format!("<{}>", $step);
+                let pkt = scion_udp([10, 0, 0, 9], ip4, 555, caddr.port(), 0, tag.as_bytes());
+                let queued = {
+                    use sciparse::core::view::View;
+                    match sciparse::packet::view::ScionPacketView::try_from_slice(&pkt) {
+                        Ok((v, _)) => {
+                            tgd.try_dispatch(v);
+                            true
+                        }
+                        Err(_) => false,
+                    }
+                };
+                sent.push(Sent { step: $step.to_string(), tag, dg: pkt, at: Instant::now(), sent: queued, outbound: true });
+                drain!(400);
             }};
         }
 
@@ -698,58 +709,109 @@ fn gateway(outp: &str) {
             snap_control::server::metrics::Metrics::new(&scion_sdk_observability::metrics::registry::MetricsRegistry::new()),
         )
         .expect("router");
+        let mut statuses = serde_json::Map::new();
         let t0 = Instant::now();
         let st = register_via_control_plane(&router, &sk, id1, "token-1", LIFE).await;
-        log.push(json!({"step": "register", "status": st}));
-        // handshake over UDP
-        let init = tunn.format_handshake_initiation(false).expect("init");
-        let ib: Packet = init.into_bytes();
-        let _ = csock.send_to(&ib[..], gw_addr).await;
+        statuses.insert("register".into(), json!(st));
+        let t_registered = Instant::now();
+        // handshake over UDP (retry: a busy machine may drop or delay the first attempt)
         let mut hs_ok = false;
-        if let Some(b) = recv(&csock, 3000).await {
-            if let Ok(k) = Packet::copy_from(&b[..]).try_into_wg() {
-                if let TunnResult::WriteToNetwork(ka) = tunn.handle_incoming_packet(k) {
-                    let kb = wg_bytes(ka);
-                    let _ = csock.send_to(&kb[..], gw_addr).await;
-                    hs_ok = true;
+        for _ in 0..3 {
+            let Some(init) = tunn.format_handshake_initiation(true) else { break };
+            let ib: Packet = init.into_bytes();
+            let _ = csock.send_to(&ib[..], gw_addr).await;
+            let mut buf = vec![0u8; 10000];
+            if let Ok(Ok((n, _))) = tokio::time::timeout(Duration::from_millis(1500), csock.recv_from(&mut buf)).await {
+                if let Ok(k) = Packet::copy_from(&buf[..n]).try_into_wg() {
+                    if let TunnResult::WriteToNetwork(ka) = tunn.handle_incoming_packet(k) {
+                        let kb = wg_bytes(ka);
+                        let _ = csock.send_to(&kb[..], gw_addr).await;
+                        hs_ok = true;
+                        break;
+                    }
                 }
             }
+            tokio::time::sleep(Duration::from_millis(50)).await;
         }
-        log.push(json!({"step": "handshake", "ok": hs_ok}));
-        tokio::time::sleep(Duration::from_millis(200)).await;
-        let good = scion_udp(ip4, [10, 0, 0, 9], caddr.port(), 555, 0, b"hello scion");
-        let spoof = scion_udp([10, 9, 9, 9], [10, 0, 0, 9], caddr.port(), 555, 0, b"spoofed");
-        let onehop = scion_udp(ip4, [10, 0, 0, 9], caddr.port(), 555, 2, b"one hop");
-        let garbage = vec![1u8, 2, 3, 4];
-        through!("authorised:good", good, 500);
-        through!("authorised:spoofed-source", spoof, 700);
-        through!("authorised:onehop-path", onehop, 700);
-        through!("authorised:garbage", garbage, 700);
+        tokio::time::sleep(Duration::from_millis(150)).await;
+        through!("authorised:good", ip4, 0u8, 0u8);
+        through!("authorised:spoofed-source", [10, 9, 9, 9], 0u8, 0u8);
+        through!("authorised:onehop-path", ip4, 2u8, 0u8);
+        through!("authorised:garbage", ip4, 0u8, 5u8);
         outbound!("authorised:outbound");
-        let early = t0.elapsed().as_secs_f64();
-        // lapse: wait until >= 5 s after the expiry instant
-        let until = Duration::from_secs(LIFE + 5);
-        if t0.elapsed() < until {
-            tokio::time::sleep(until - t0.elapsed()).await;
+        drain!(300);
+        let authorised_done = t0.elapsed().as_secs_f64();
+        // lapse: the registration ends at the latest LIFE s after the register call RETURNED; wait 5 s more
+        let lapse_from = t_registered + Duration::from_secs(LIFE + 5);
+        let nowi = Instant::now();
+        if nowi < lapse_from {
+            let d = lapse_from - nowi;
+            // keep draining while waiting (late replies, keepalives)
+            drain!(d.as_millis() as u64);
         }
-        through!("lapsed:good", good, 1200);
-        through!("lapsed:spoofed-source", spoof, 700);
+        through!("lapsed:good", ip4, 0u8, 0u8);
+        through!("lapsed:spoofed-source", [10, 9, 9, 9], 0u8, 0u8);
         outbound!("lapsed:outbound");
+        drain!(1500);
         // the identity registers again: traffic resumes on the existing WireGuard session
-        let t1 = Instant::now();
+        let t_rereg_start = Instant::now();
         let st = register_via_control_plane(&router, &sk, id1, "token-1", LIFE).await;
-        log.push(json!({"step": "reregister", "status": st}));
-        through!("reregistered:good", good, 500);
+        statuses.insert("reregister".into(), json!(st));
+        let t_rereg_done = Instant::now();
+        through!("reregistered:good", ip4, 0u8, 0u8);
         outbound!("reregistered:outbound");
+        drain!(300);
+        let rereg_phase_s = t_rereg_done.elapsed().as_secs_f64();
         // superseded by another identity under the same token key
         let st = register_via_control_plane(&router, &sk, id2, "token-1", LIFE).await;
-        log.push(json!({"step": "supersede", "status": st}));
-        through!("superseded:good", good, 1200);
+        statuses.insert("supersede".into(), json!(st));
+        through!("superseded:good", ip4, 0u8, 0u8);
         outbound!("superseded:outbound");
-        let late = t1.elapsed().as_secs_f64();
+        drain!(2000);
         cancel.cancel();
         let _ = tokio::time::timeout(Duration::from_secs(2), task).await;
-        json!({"life": LIFE, "authorised_phase_done_at_s": early, "second_phase_took_s": late, "log": log})
+
+        // ---- attribution by content and time
+        let dispatched = disp.got.lock().unwrap().clone();
+        let contains = |hay: &[u8], needle: &[u8]| hay.windows(needle.len()).any(|w| w == needle);
+        let mut steps = vec![];
+        for s_ in &sent {
+            let lapsed = s_.step.starts_with("lapsed");
+            // an observation for a lapsed-phase item only counts if it happened before the re-registration started
+            let counts = |t: &Instant| !lapsed || *t < t_rereg_start;
+            let mut o = json!({"step": s_.step, "sent": s_.sent});
+            if s_.outbound {
+                let all: Vec<&(Instant, Vec<u8>)> = received.iter().filter(|(_, p)| *p == s_.dg).collect();
+                o["delivered"] = json!(all.len());
+                o["delivered_counted"] = json!(all.iter().filter(|(t, _)| counts(t)).count());
+            } else {
+                let all: Vec<&(Instant, Vec<u8>)> = dispatched.iter().filter(|(_, p)| *p == s_.dg).collect();
+                o["dispatched"] = json!(all.len());
+                o["dispatched_counted"] = json!(all.iter().filter(|(t, _)| counts(t)).count());
+                // SCMP replies quoting this datagram
+                let reps: Vec<Value> = received
+                    .iter()
+                    .filter(|(_, p)| p.len() > 12 && p[4] == 202 && contains(p, s_.tag.as_bytes()))
+                    .map(|(t, p)| {
+                        let hl = p[5] as usize * 4;
+                        let ok = p.len() >= hl + 8;
+                        json!({"len": p.len(), "scmp_type": if ok { json!(p[hl]) } else { Value::Null }, "scmp_code": if ok { json!(p[hl + 1]) } else { Value::Null },
+                               "counted": counts(t)})
+                    })
+                    .collect();
+                o["replies"] = json!(reps);
+            }
+            let _ = s_.at;
+            steps.push(o);
+        }
+        // payloads that reached the client and belong to no step (must not happen)
+        let stray: Vec<String> = received
+            .iter()
+            .filter(|(_, p)| !sent.iter().any(|s_| *p == s_.dg || (p.len() > 12 && p[4] == 202 && contains(p, s_.tag.as_bytes()))))
+            .map(|(_, p)| p.iter().take(32).map(|x| format!("{x:02x}")).collect::<String>())
+            .collect();
+        json!({"life": LIFE, "handshake": hs_ok, "statuses": statuses, "authorised_phase_done_at_s": authorised_done,
+               "reregistered_phase_took_s": rereg_phase_s, "protocol_msgs": protocol_msgs, "stray": stray, "log": steps})
     });
     std::fs::write(outp, serde_json::to_string(&result).unwrap()).unwrap();
 }
